@@ -229,6 +229,21 @@ Theorem C01_memo_same_history : forall a b k s d caller cur rine rp obs,
 Proof. exact memo_skip. Qed.
 Print Assumptions C01_memo_same_history.
 
+(* the client glue (getTxnStatus, differentially tested against the code by driver `sistatus`): only cacheable statuses
+   are ever memoised; a hit answers the memoised status without a request; a miss sends one and memoises iff cacheable;
+   cacheable = committed or rolled back *)
+Theorem C01_memo_glue : forall cache txn ans, Forall (fun e => cacheable (snd e) = true) cache ->
+  let '(v, cache', sent) := get_txn_status cache txn ans in
+  Forall (fun e => cacheable (snd e) = true) cache' /\
+  (sent = false -> memo_get cache txn = Some v /\ cache' = cache /\ cacheable v = true) /\
+  (sent = true -> memo_get cache txn = None /\ v = cview ans /\ memo_get cache' txn = (if cacheable v then Some v else None)).
+Proof. exact get_txn_status_inv. Qed.
+Print Assumptions C01_memo_glue.
+
+Theorem C01_cacheable_spec : forall v, cacheable v = cs_committed v || cs_rolledback v.
+Proof. exact cacheable_spec. Qed.
+Print Assumptions C01_cacheable_spec.
+
 (* ------------------------------------------------------------------ non-vacuity *)
 Definition T (r : N) : N := r * 262144.
 Definition ex_cmds : list cmd :=
